@@ -153,7 +153,7 @@ void h_v_transpose_axes(void){
   i32 a = in_i32(-4, 3), b = in_i32(-4, 3); ax[0] = (u32)a; ax[1] = (u32)b;
   int ok = axis_ok(a, 2) && axis_ok(b, 2) && norm_axis(a, 2) != norm_axis(b, 2);
 #ifdef KF_C15_TRANSPOSE_AXES
-  ASSUME(!(!ok || a < 0 || b < 0));       /* excluded region: anything but a permutation written with non-negative axes */
+  ASSUME(!(!ok));                         /* excluded region: axes that are not a permutation (out of range or repeated) */
 #endif
   u64 an = ok ? (u64)norm_axis(a, 2) : 0, bn = ok ? (u64)norm_axis(b, 2) : 0;
   e[0] = s[an]; e[1] = s[bn]; in_index(idx, e, 2, ok);
@@ -243,6 +243,53 @@ void h_v_concatenate(void){
   if (r && ok){ ASSERT(od == 2 && os[0] == e[0] && os[1] == e[1], "shape");
     if (idx[an] < s[an]) ASSERT(out == data[horner(idx, s, 2)], "element from a");
     else { u64 bi[2]; bi[an] = idx[an] - s[an]; bi[1-an] = idx[1-an]; ASSERT(out == bdata[horner(bi, bs, 2)], "element from b"); } }
+  OBS(r); OBS(out);
+  REACHED();
+}
+void h_v_broadcast_to(void){
+  u64 s[2], t[4], idx[4], os[4] = {0}, od = 0; u32 data[CELLS], out = 0;
+  in_shape2(s); in_data(data, MAXE*MAXE);
+  u64 nt = in_u64(0, 4); for (int i = 0; i < 4; i++) t[i] = in_u64(1, MAXE);
+  int ok = nt >= 2; if (ok) for (u64 k = 0; k < 2; k++){ u64 x = s[1-k], y = t[nt-1-k]; if (x != y && x != 1) ok = 0; }
+  in_index(idx, t, nt, ok);
+  int r = k_v_broadcast_to(s, data, t, nt, idx, nt, os, &od, &out);
+  ASSERT(r == (ok ? 1 : 0), "broadcast_to is Nothing iff np.broadcast_to rejects the target");
+  if (r && ok){ ASSERT(od == nt, "dim"); for (u64 i = 0; i < 4; i++) if (i < nt) ASSERT(os[i] == t[i], "shape"); ASSERT(out == data[bpos(idx, nt, s, 2)], "element"); }
+  OBS(r); OBS(out);
+  REACHED();
+}
+void h_v_roll(void){
+  u64 s[2], idx[4], os[4] = {0}, od = 0, e[4] = {0}, si[2]; u32 data[CELLS], out = 0;
+  in_shape2(s); in_data(data, MAXE*MAXE);
+  i32 sh = in_i32(-4, 4), a = in_i32(-4, 3);
+  int ok = axis_ok(a, 2);
+  u64 an = ok ? (u64)norm_axis(a, 2) : 0;
+#ifdef KF_C15_ROLL_LARGE_SHIFT
+  ASSUME(!(ok && (sh > (i32)s[an] || sh < -(i32)s[an])));   /* excluded region: |shift| larger than the extent of the rolled axis */
+#endif
+  e[0] = s[0]; e[1] = s[1]; in_index(idx, e, 2, ok);
+  int r = k_v_roll(s, data, (u32)sh, (u32)a, idx, 2, os, &od, &out);
+  ASSERT(r == (ok ? 1 : 0), "roll is Nothing iff the axis is outside [-ndim, ndim)");
+  if (r && ok){ ASSERT(od == 2 && os[0] == s[0] && os[1] == s[1], "shape");
+    for (u64 i = 0; i < 2; i++){ i64 n = (i64)s[i], v = (i64)idx[i] - (i == an ? sh : 0); v %= n; if (v < 0) v += n; si[i] = (u64)v; }
+    ASSERT(out == data[horner(si, s, 2)], "element == np.roll element"); }
+  OBS(r); OBS(out);
+  REACHED();
+}
+void h_v_pad_transpose(void){
+  u64 s[2], pw[8], idx[4], os[4] = {0}, od = 0, e[4] = {0}, t[4] = {0}; u32 data[CELLS], out = 0;
+  in_shape2(s); in_data(data, MAXE*MAXE);
+  u64 npw = in_u64(0, 8); for (int i = 0; i < 8; i++) pw[i] = in_u64(0, 2);
+  u32 value = in_any32();
+  int ok = npw == 4;
+  e[0] = s[0] + pw[0] + pw[2]; e[1] = s[1] + pw[1] + pw[3]; t[0] = e[1]; t[1] = e[0];
+  for (u64 i = 0; i < 4; i++){ idx[i] = in_u64(0, MAXE + 3); if (ok) ASSUME(i < 2 ? idx[i] < t[i] : idx[i] == 0); }
+  int r = k_v_pad_transpose(s, data, pw, npw, value, idx, 2, os, &od, &out);
+  ASSERT(r == (ok ? 1 : 0), "transpose(pad(a, widths)) is Nothing iff there is not one (begin,end) pair per axis");
+  if (r && ok){ ASSERT(od == 2 && os[0] == t[0] && os[1] == t[1], "shape");
+    u64 y = idx[1], x = idx[0];                         /* position in the padded array */
+    int inside = y >= pw[0] && y < pw[0] + s[0] && x >= pw[1] && x < pw[1] + s[1];
+    ASSERT(out == (inside ? data[(y - pw[0])*s[1] + (x - pw[1])] : value), "element: source cell inside, pad value outside"); }
   OBS(r); OBS(out);
   REACHED();
 }
